@@ -149,3 +149,32 @@ def oracle_decision(objs, matches):
         return False
     hit = [p for p, m in zip(objs, matches) if m is True]
     return len(hit) > 0 and all(type(p.effect) is str and p.effect == ALLOW_ACCESS for p in hit)
+
+
+def _canon_any(o, depth=0):
+    """content of a rule argument / element, insensitive to list-vs-tuple and to set iteration order"""
+    import re as _re
+    if depth > 12:
+        return '<deep>'
+    if isinstance(o, (type(None), bool, int, float, str)):
+        return (type(o).__name__, o)
+    if isinstance(o, (list, tuple)):
+        return ('seq', tuple(_canon_any(x, depth + 1) for x in o))
+    if isinstance(o, (set, frozenset)):
+        return ('set', tuple(sorted((_canon_any(x, depth + 1) for x in o), key=repr)))
+    if isinstance(o, dict):
+        return ('dict', tuple(sorted(((str(k), _canon_any(v, depth + 1)) for k, v in o.items()), key=repr)))
+    if isinstance(o, _re.Pattern):
+        return ('re', o.pattern, o.flags)
+    if hasattr(o, '__dict__'):
+        return (type(o).__module__ + '.' + type(o).__name__,
+                tuple(sorted((k, _canon_any(v, depth + 1)) for k, v in vars(o).items())))
+    return ('obj', repr(o))
+
+
+def policy_key(p):
+    """canonical content of a policy object: what must survive storage (uid, effect, description, type, elements
+    in order, context)"""
+    return repr((_canon_any(p.uid), _canon_any(p.effect), _canon_any(p.description), p.type,
+                 [_canon_any(e) for e in p.subjects], [_canon_any(e) for e in p.resources],
+                 [_canon_any(e) for e in p.actions], _canon_any(p.context)))
